@@ -13,3 +13,6 @@ func b2i(b bool) int {
 	}
 	return 0
 }
+
+// vtraceRx reports a packet the receive loop is about to process.
+func vtraceRx(src any, b []byte) {}
